@@ -79,7 +79,7 @@ Definition init_state (d : devs) (body : list stmt) : state :=
   mkState [] [g_globals; g_coroutine; g_table; g_string; g_math; g_strmt]
           [mkClo [] true body [] 0 0 true] [] [] [] None (Some 5%nat) d.
 
-Definition no_devs := mkDevs false false false false false.
+Definition no_devs := mkDevs false false false false 0.
 
 Definition run_program (fuel : nat) (d : devs) (body : list stmt) : fin :=
   drive fuel [] [] (call fuel [] (VFun 0%nat) [] (init_state d body)).
